@@ -9,7 +9,7 @@ from gen import resfile as rf
 import impl_model as im
 
 THEOREMS = ['C17_never_reports_wildcards', 'C17_complete_restraint_silent', 'C17_missing_atom_reported', 'C17_reported_are_absent',
-            'C17_reported_bare_absent', 'C17_reported_exactly', 'C17_restr_example', 'C17_star_example']
+            'C17_reported_bare_absent', 'C17_reported_exactly', 'C17_restr_example', 'C17_star_example', 'C17_keyword_star_example']
 IMPORTS = 'From SX Require Import Base.Prelude Base.Str Model.Restr.\n'
 HEAD = ['TITL test', 'CELL 0.71073 10.5 11.2 12.3 90 95.5 90', 'ZERR 4 0.001 0.002 0.003 0.01 0.02 0.03', 'LATT 1', 'SYMM -X, 1/2+Y, 1/2-Z',
         'SFAC C H O N', 'UNIT 16 20 4 2', 'FVAR 1.0 0.6']
@@ -114,6 +114,8 @@ def addressed(residues, sfx, own):
         return [sfx[1]]
     if sfx[0] == 'class':
         return [n for n, c in residues if c.upper() == str(sfx[1]).upper()]
+    if sfx[0] == 'star':
+        return [n for n, c in residues]        # _* on the keyword: every residue of the file
     return [0]
 
 
@@ -217,7 +219,7 @@ def run(ctx):
                        'every addressing mode (none / _number / _class in either case / _* / a class without residues), numerical parameters in several spellings, whose 2-5 items are '
                        'names, name_n, name_*, name_$1, $element, < or >, with the absent name C9 mixed in; all random, hence distinct')
     ctx.notes.setdefault('coverage_extra', {})['addressing_histogram'] = hist
-    ctx.assumptions += ['a keyword suffix _* is read as residue 0 (the library does so; the lenient reading of the property accepts it)',
+    ctx.assumptions += ['a keyword suffix _* addresses every residue number of the file (not residue 0); without residues it falls back to residue 0',
                         'hand-written model Model/Restr.v validated on the generated restraints']
 
 
